@@ -154,6 +154,8 @@ type Prog struct {
 	Hazard string // "" for the main stream; else exactly one known defect class this program exercises
 	RawFo  string // hazard classes outside MiniFo (generic unions): the Folang text itself ...
 	RawOut string // ... and the output its source semantics prescribe
+	// print operands without the parentheses fc's operator table makes redundant (corpus files named *noparens*)
+	OmitParens bool
 }
 
 type Block struct {
